@@ -325,6 +325,9 @@ let run_script (si : int) (ops : opblock list) (do_wf : bool) (do_tree : bool) (
                (match Tree.file_of_handle ts_before (n_of_string fh) with
                 | Some f ->
                   (match Tree.find_node !ts f.Tree.fh_node with
+                   | Some nd when Tree.node_dirty !ts nd.Tree.t_id ->
+                     (* another handle on the same file still has unflushed metadata: nothing is established *)
+                     ()
                    | Some nd ->
                      let path = names_to_root !ts nd.Tree.t_parent [] @ [nd.Tree.t_name] in
                      facts := (nd.Tree.t_id, path, nd.Tree.t_content) :: Stdlib.List.filter (fun (id, _, _) -> id <> nd.Tree.t_id) !facts;
